@@ -34,7 +34,8 @@ check("C03", "exploration",
       "every line: exactly one JSON line with an integer errorcode came back, the manager is still "
       "serving, and a well-formed probe on a new connection is answered with 0 (bounded liveness).",
       "Benign record-only device; a client that never ends its line is outside the property; "
-      "bitcoin.core is the stand-in.",
+      "bitcoin.core is the stand-in; half of the runs log as the deployed manager does (records "
+      "formatted, output discarded), the other half with logging off.",
       SIM + "full-server simulation under a seeded scheduler, hostile request histories, reply and liveness invariants",
       "DESIGN.md 4/C03", "manager-world")
 
